@@ -59,6 +59,17 @@ def bounded(pid, name, **kw):
     return deco
 
 
+def depends(pid, other_pid, names):
+    """the claim for `pid` rests on contracts proved under another property (a callee's contract used modularly): the same harnesses are run
+    again by `pid`'s check, so that a change which breaks the callee's contract fails the caller's check too (obligation ids are prefixed)"""
+    importlib.import_module(f"contracts.{other_pid}")
+    have = {h.name for h in _reg(pid)["harness"]}
+    for hn in list(REGISTRY[other_pid]["harness"]):
+        if hn.name in names and f"{other_pid}.{hn.name}" not in have:
+            _reg(pid)["harness"].append(Harness(pid, f"{other_pid}.{hn.name}", hn.fn, functions=hn.functions, replay=hn.replay, tier=hn.tier,
+                                                assumptions=hn.assumptions, clause=f"[contract of a dependency, proved under {other_pid}] {hn.clause}"))
+
+
 def property_meta(pid, **kw):
     _reg(pid)["meta"].update(kw)
 
